@@ -67,12 +67,14 @@ def msgs_runs(tier, seed):
     if tier == "quick":
         return [{"profile": "msgs", "args": ["msgs", "-seed", str(seed * 10 + 1), "-hist", "3", "-steps", "150", "-signed"]},
                 {"profile": "collateral", "args": ["collateral", "-seed", str(seed * 10 + 2), "-hist", "2", "-steps", "250"]},
+                {"profile": "plans", "args": ["plans", "-seed", str(seed * 10 + 5), "-hist", "3", "-steps", "300"]},
                 {"profile": "rns", "args": ["rns", "-seed", str(seed * 10 + 3), "-hist", "4", "-steps", "300"]},
                 {"profile": "notif", "args": ["notif", "-seed", str(seed * 10 + 4), "-hist", "3", "-steps", "300"]}]
     return [{"profile": "rns", "args": ["rns", "-seed", str(seed * 100 + 70 + k), "-hist", "8", "-steps", "500"]} for k in range(3)] + \
            [{"profile": "notif", "args": ["notif", "-seed", str(seed * 100 + 80 + k), "-hist", "6", "-steps", "500"]} for k in range(2)] + \
            [{"profile": "msgs", "args": ["msgs", "-seed", str(seed * 100 + k), "-hist", "6", "-steps", "400", "-signed"]} for k in range(8)] + \
-           [{"profile": "collateral", "args": ["collateral", "-seed", str(seed * 100 + 50 + k), "-hist", "4", "-steps", "500"]} for k in range(4)]
+           [{"profile": "collateral", "args": ["collateral", "-seed", str(seed * 100 + 50 + k), "-hist", "4", "-steps", "500"]} for k in range(4)] + \
+           [{"profile": "plans", "args": ["plans", "-seed", str(seed * 100 + 60 + k), "-hist", "4", "-steps", "500"]} for k in range(3)]
 
 
 def det_runs(tier, seed):
@@ -84,7 +86,7 @@ def det_runs(tier, seed):
 PROPS = {
     "C06": {
         "runs": det_runs, "replay_runs": replay_runs, "monitor": (lambda rec: []), "model": False, "facts": facts.gen_nondet_facts,
-        "replicas": [{"GOMAXPROCS": "1"}, {"GOMAXPROCS": "16", "GOGC": "20"}],
+        "replicas": [{"GOMAXPROCS": "1", "TZ": "America/New_York"}, {"GOMAXPROCS": "16", "GOGC": "20", "TZ": "Australia/Lord_Howe"}],
         "diff_relevant": lambda d: False,
         "trusted_base": BASE_TRUST + ["the nondeterminism-site scanner (verif/scan, go/types based: range over map-typed expressions, time.Now/Since, rand packages, go, select) over x/*, wasmbinding, types",
                                       "the two/three-process replay uses real signed transactions through DeliverTx and compares code, gas, ordered events and AppHash"],
